@@ -114,7 +114,8 @@ hdr = header_file('api.h')
 hdir = header_directory('include', include='**/*.hpp')
 hnone = header_directory('include2', include='*.zzz')
 man = man_page('prog.1')
-install(exe, st, hdr, hdir, hnone, man)
+man2 = man_page('doc/tool.1')
+install(exe, st, hdr, hdir, hnone, man, man2)
 install(generic_file('data.txt'), directory=Path('share/p data', InstallRoot.prefix))
 """
 
@@ -275,6 +276,7 @@ class InstallRun(Bounded):
                       'data.txt'):
                 _w(src + '/' + f, f)
             _w(src + '/prog.1', '.TH prog 1\n')
+            _w(src + '/doc/tool.1', '.TH tool 1\n')
             env = dict(_os.environ, PATH=top + '/bin:/venv/bin:' + _os.environ['PATH'])
             env.pop('MAKEFLAGS', None)
             env.pop('DESTDIR', None)
@@ -324,11 +326,12 @@ class InstallRun(Bounded):
                 return self.fail(case, raw, 'run_time_dependency_installed_under_libdir', found=sorted(found), libdir=dirs['lib'])
             want = {dirs['bin'] + '/prog', dirs['lib'] + '/libstlib.a', dirs['include'] + '/api.h',
                     dirs['include'] + '/a.hpp', dirs['include'] + '/deep/b.hpp', prefix + '/share/p data/data.txt'} | set(libs)
-            mans = {f for f in found if f.startswith(dirs['man'] + '/man1/prog.1')}
+            # manual pages go to man<section>/ by their base name (compressed or not), whatever directory they came from
+            mans = {f for f in found if f.startswith(dirs['man'] + '/man1/prog.1') or f.startswith(dirs['man'] + '/man1/tool.1')}
             pre = {f for f in found if f.endswith('/libpre.so')}
             if prebuilt and not (len(pre) == 1 and list(pre)[0].startswith(dirs['lib'] + '/')):
                 return self.fail(case, raw, 'run_time_dependency_installed_under_libdir', found=sorted(found), which='libpre.so')
-            if len(mans) != 1 or found - mans - pre != want:
+            if len(mans) != 2 or found - mans - pre != want:
                 return self.fail(case, raw, 'exactly_the_declared_files_under_the_configured_directories',
                                  unexpected=sorted(found - mans - pre - want), missing=sorted(want - found), man=sorted(mans))
             prog = root + dirs['bin'] + '/prog'
